@@ -173,11 +173,17 @@ class Prop(BaseProp):
             self.check_text(res, outs[0], root, state["title"], headers[level], ops)
 
         n_ops = rng.randint(3, 40)
+        if idx % 600 == 77:
+            n_ops = rng.choice([700, 1300])          # scale: containers with several hundred elements
         for _ in range(n_ops):
             obj, mn = rng.choice(live)
+            if n_ops >= 300 and len(live) > 1 and rng.random() < 0.8:
+                obj, mn = live[1]                    # (... most of them in ONE nested directive, which also has options)
             op = rng.choice(["text", "text", "field", "bullets", "enum", "directive", "directive", "option", "title", "clear",
                              "str", "str", "rename", "section", "sectitle"])
             d = mn.depth
+            if n_ops >= 300 and op in ("clear", "directive", "section") and rng.random() < 0.9:
+                op = "text"
             if op == "text":
                 t = rng.choice(TEXTS)
                 i = nid()
